@@ -103,8 +103,21 @@ pub fn record(seed: u64, n: usize, out_path: &str, voice: &str) {
         let mut lines: Vec<String> = (0..k).map(|_| corpus.lines[rng.below(corpus.lines.len())].clone()).collect();
         let which = rng.below(lines.len());
         let mut chars: Vec<char> = lines[which].chars().collect();
-        let what = rng.below(9);
+        let what = rng.below(11);
         match what {
+            // combined corruptions: one time stamp deleted (two tokens left: "missing label") or both kept, and a multi-byte
+            // character put at a chosen byte offset of the line (error messages quote the line: offsets around 16, 20, 32, 64, 80, 128)
+            9 | 10 => {
+                let s: String = chars.iter().collect();
+                let mut line = if what == 9 { format!("{} {}", 1000 * rng.below(100000), s) } else { format!("0 {} {}", 1000 * rng.below(100000), s) };
+                let target = *rng.pick(&[16usize, 20, 32, 64, 80, 128]) - rng.below(4);
+                let mut at = target.min(line.len());
+                while !line.is_char_boundary(at) {
+                    at -= 1;
+                }
+                line.insert(at, *rng.pick(&['é', 'あ', '💥']));
+                chars = line.chars().collect();
+            }
             0 => { let p = rng.below(chars.len()); chars.remove(p); }
             1 => { let p = rng.below(chars.len()); let c = chars[p]; chars.insert(p, c); }
             2 => { let p = rng.below(chars.len()); chars[p] = *rng.pick(&['あ', 'é', '\u{0}', '\u{202e}', '💥', ' ', '\t', '\n']); }
